@@ -89,6 +89,93 @@ def run(ctx: Ctx) -> None:
         impl=impl, decode=lambda m: res_decode(m, unS), oracle=oracle,
         nontrivial=lambda c: count_meta(c[0]) > 0,
         kind=lambda c: f"{min(count_meta(c[0]), 4)}{'+' if count_meta(c[0]) > 4 else ''} metadata nodes")
+    routes(ctx)
+
+
+def build_routes(d, rng, plain_only=False):
+    """Build the tree d, letting every metadata node enter its parent's child list by a randomly
+    chosen route: constructor, insert(), append(), extend(), slice assignment on .children,
+    the expansion of a tagifiable object (made visible by tagify()), or being displayed inside
+    the parent's `with` block.  Returns (live tree, needs_tagify)."""
+    import sys
+    from htmltools import HTMLDependency, MetadataNode, Tag
+    if d[0] != "G":
+        return trees.build(d), False
+    _, name, ws, attrs, kids = d
+    needs = False
+    built = []
+    for k in kids:
+        b, n = build_routes(k, rng, plain_only)
+        needs = needs or n
+        built.append((k, b))
+    t = Tag(name, *[b for k, b in built if k[0] != "M"], _add_ws=ws)
+    for key, (m, v) in attrs:
+        dict.__setitem__(t.attrs, key, trees.HTML(v) if m == "H" else v)
+    # now put the metadata nodes where they belong, one by one, left to right
+    pos = 0
+    for k, b in built:
+        if k[0] != "M":
+            pos += 1
+            continue
+        route = rng.choice(["insert", "slice", "custom", "with", "append_if_last", "extend_if_last"])
+        last = pos == len(t.children)
+        if route == "custom":
+            obj = trees.CustomObj([b], rng.random() < 0.5)
+            t.children[pos:pos] = [obj]
+            needs = True
+        elif route == "with" and last:
+            old = sys.displayhook
+            try:
+                with_tag_display(t, b)
+            finally:
+                sys.displayhook = old
+        elif route == "append_if_last" and last:
+            t.append(b)
+        elif route == "extend_if_last" and last:
+            t.extend([[b]])
+        elif route == "slice":
+            t.children[pos:pos] = [b]
+        else:
+            t.insert(pos, b)
+        pos += 1
+    return t, needs
+
+
+def with_tag_display(t, value):
+    """display `value` inside `with t:` (the tag is handed to a throw-away outer hook)"""
+    import sys
+    sys.displayhook = lambda v: None
+    with t:
+        sys.displayhook(value)
+    t.prev_displayhook = None
+
+
+def routes(ctx: Ctx) -> None:
+    rng = ctx.rng
+    for _ in range(ctx.budget(1500, 20000)):
+        d = trees.rand_tree(rng, rng.choice([1, 2, 3]), leaves="THMMMD", names="bbivsck")
+        if count_meta(d) == 0:
+            continue
+        ctx.count(("routes", d), True, "metadata entering by insert/append/extend/slice/expansion/with")
+        st = trees.rng_save(rng)
+        r = safe_call(lambda: build_routes(d, rng))
+        if r[0] != "ok":
+            ctx.violation("adding a metadata node through the public API raised", d, {"impl_output": r})
+            continue
+        t, needs = r[1]
+        got = safe_call(lambda: (t.tagify() if needs else t).get_html_string())
+        want = safe_call(lambda: build(strip(d)).get_html_string())
+        if got != want:
+            ctx.violation("rendering changes when metadata nodes are present (added by insert / append / extend / slice "
+                          "assignment / a tagify expansion / a with-block display)", d,
+                          {"impl_output": got, "expected": want})
+        deps = safe_call(lambda: t.render())
+        if deps[0] == "ok" and want[0] == "ok" and deps[1]["html"] != want[1]:
+            ctx.violation("render()['html'] shows a trace of metadata nodes added after construction", d,
+                          {"impl_output": deps[1]["html"], "expected": want[1]})
+        n_dep = repr(d).count("'name':")
+        if deps[0] == "ok" and n_dep and not deps[1]["dependencies"]:
+            ctx.violation("dependencies added after construction are not reported", d, {})
 
 
 def replay(ctx: Ctx, path: str) -> None:
